@@ -215,6 +215,8 @@ def rules(ctx):
         C11.same_source_rules(ctx, 'R12.7', ctx.prog.func('_anneal.%s' % name))
     C11.layout_agreement(ctx, 'R12.7')
     C11.boolean_wrappers(ctx, 'R12.7', 'R12.7', 'R12.7')
+    for name in ('anneal_quso', 'anneal_puso'):
+        C11.marshalling_python(ctx, 'R12.7', ctx.prog.func('_anneal.%s' % name))
     ctx.rule('R12.1', "entropy sources: clock only under seed < 0; only explicit-state PCG reachable; one local "
                       "generator per call initialised outside the anneal loop; no other entropy", floor=8)
     ctx.rule('R12.2', "seed and in_order forwarding chain Python -> wrapper -> kernel -> rand_init / ternary", floor=10)
